@@ -329,7 +329,7 @@ def Stream.startMessageRead (s : Stream) (w : List WireFrame) : Except Err (Stre
     (fix D15: it never reads into the next message). -/
 def Stream.readMessageBytes (s : Stream) (n : Nat) : Except Err (Stream × Bytes) :=
   if !s.inMessage then .error .state
-  else if s.recvBuf.length - s.bytesRead = 0 then .error .eof
+  else if s.recvBuf.length - s.bytesRead = 0 then .error .eom
   else
     let k := min n (s.recvBuf.length - s.bytesRead)
     .ok ({ s with bytesRead := s.bytesRead + k }, (s.recvBuf.drop s.bytesRead).take k)
